@@ -1,7 +1,79 @@
-(* C07 -- literal pattern text matches only itself. (theorems are added as they are proved) *)
-From Coq Require Import List NArith.
-From BV Require Import Lib.PyStr Lib.Regex Lib.RegexParse Model.V2.
+(* C07 -- literal pattern text matches only itself.
+   Proofs are in Proofs/LiteralFacts.v; this file only restates them.
+   plain s   : printable ASCII without upper-case letters and without [ ] \ ^ $
+   lit_e s   : the literal regex (Lib.Regex.lit s)
+   The last two Examples are refutation witnesses for text outside that class. *)
+From Coq Require Import List Bool NArith Arith.
+From BV Require Import Lib.PyStr Lib.Regex Lib.RegexParse Gen.Tables Model.V2 Proofs.LiteralFacts.
 Import ListNotations.
-Example C07_pipe_is_literal : compile_pattern_str [97;124;98]%N = [97;92;124;98]%N.
-Proof. vm_compute. reflexivity. Qed.
+Local Open Scope N_scope.
+
+Theorem C07_repo_escape_table_shape :
+  forallb (fun '(c, e) => match c with [x] => eqb_str e [92; x] | _ => false end) RE_PATTERN_ESCAPES = true
+  /\ NoDup (map fst RE_PATTERN_ESCAPES).
+Proof. exact repo_escape_table_shape. Qed.
+Print Assumptions C07_repo_escape_table_shape.
+
+Theorem C07_repo_escapes_cover_metachars :
+  forallb (fun c => has_key [c] RE_PATTERN_ESCAPES) [92;45;46;43;42;63;123;125;91;93;40;41;124] = true.
+Proof. exact repo_escapes_cover_metachars. Qed.
+Print Assumptions C07_repo_escapes_cover_metachars.
+
+Theorem C07_escape_is_charwise : forall s, plain s = true -> escape_pattern s = flat_map escaped_chr s.
+Proof. exact escape_is_charwise. Qed.
+Print Assumptions C07_escape_is_charwise.
+
+Theorem C07_no_part_in_plain : forall s, plain s = true ->
+  iter_part_patterns (replace_brackets (escape_pattern s)) = [].
+Proof. exact no_part_in_plain. Qed.
+Print Assumptions C07_no_part_in_plain.
+
+Theorem C07_plain_compiles_to_itself_escaped : forall s, plain s = true ->
+  compile_pattern_str s = flat_map escaped_chr s.
+Proof. exact plain_compiles_to_itself_escaped. Qed.
+Print Assumptions C07_plain_compiles_to_itself_escaped.
+
+Theorem C07_plain_compiles_to_literal : forall s, plain s = true ->
+  parse_re (compile_pattern_str s) = Some (lit_e s).
+Proof. exact plain_compiles_to_literal. Qed.
+Print Assumptions C07_plain_compiles_to_literal.
+
+Theorem C07_plain_compile_pattern_re : forall s, plain s = true -> compile_pattern_re s = Some (lit_e s).
+Proof. exact plain_compile_pattern_re. Qed.
+Print Assumptions C07_plain_compile_pattern_re.
+
+Theorem C07_first_match_lit : forall s f n0 x,
+  first_match f n0 (lit_e s) x = if prefixb s x then Some ([], skipn (length s) x) else None.
+Proof. exact first_match_lit. Qed.
+Print Assumptions C07_first_match_lit.
+
+Theorem C07_search_span_lit : forall s line,
+  search_span (lit_e s) line =
+  match sfind s line with Some i => Some (i, (i + length s)%nat, s) | None => None end.
+Proof. exact search_span_lit. Qed.
+Print Assumptions C07_search_span_lit.
+
+Theorem C07_literal_search_iff_contains : forall s line, plain s = true -> s <> [] ->
+  ((exists a b t, search_span (lit_e s) line = Some (a, b, t)) <-> str_in s line = true)
+  /\ (forall a b t, search_span (lit_e s) line = Some (a, b, t) ->
+        t = s /\ firstn (b - a) (skipn a line) = s).
+Proof. exact literal_search_iff_contains. Qed.
+Print Assumptions C07_literal_search_iff_contains.
+
+Example C07_pipe_is_literal : compile_pattern_str [97; 124; 98] = [97; 92; 124; 98].
+Proof. exact pipe_is_literal. Qed.
 Print Assumptions C07_pipe_is_literal.
+
+Example C07_caret_mid_is_anchor :
+  compile_pattern_str [120; 94; 121] = [120; 94; 121]
+  /\ compile_pattern_re [120; 94; 121] = Some (Cat (chr_re 120) (Cat Bol (Cat (chr_re 121) Eps)))
+  /\ search_span (Cat (chr_re 120) (Cat Bol (Cat (chr_re 121) Eps))) [120; 94; 121] = None.
+Proof. exact caret_mid_is_anchor. Qed.
+Print Assumptions C07_caret_mid_is_anchor.
+
+Example C07_backslash_d_is_class :
+  compile_pattern_re [97; 92; 100; 98] = Some (Cat (chr_re 97) (Cat digit_re (Cat (chr_re 98) Eps)))
+  /\ search_span (Cat (chr_re 97) (Cat digit_re (Cat (chr_re 98) Eps))) [97; 53; 98] = Some (0%nat, 3%nat, [97; 53; 98])
+  /\ search_span (Cat (chr_re 97) (Cat digit_re (Cat (chr_re 98) Eps))) [97; 92; 100; 98] = None.
+Proof. exact backslash_d_is_class. Qed.
+Print Assumptions C07_backslash_d_is_class.
